@@ -590,3 +590,95 @@ _run1 = run
 def run(ctx, rep, tier):
     _run1(ctx, rep, tier)
     _ord_on_symbols(ctx, rep, tier)
+
+
+# ---------------------------------------------------------------------------------------------------------------- C18.k
+# next(<iterator>) without a default raises StopIteration on an empty iterator: an internal exception unless guarded or the iterator is non-empty
+# by construction. Key = (function, rename-invariant shape of the argument); the justification names the construct it rests on, and each such
+# construct is re-checked on every run (requirement patterns).
+NEXT_TRIAGE = {
+    ("RegexNFA.convert_to_dfa", "iter(_1)"):
+        ("argument is an epsilon closure, which contains its non-empty seed set (the start state itself / `if move_result:`)",
+         [("RegexNFA.convert_to_dfa", "if move_result:\n    new_state = epsilon_closure(move_result)\n    ..."),
+          ("RegexNFA.convert_to_dfa", "start_dfa_state = frozenset((get_index(x) for x in self.start_state.epsilon_closure()))"),
+          ("RegexNFState.epsilon_closure", "total_moves = set((self,))"),
+          ("RegexNFState.epsilon_closure", "return total_moves")]),
+    ("RegexNFA.minimize_dfa.add_back", "iter(subset)"):
+        ("add_back is only applied to partition_containing(<a real state>): the partition found contains that state", "ADD_BACK"),
+    ("CaseNode._merge.create_real_state_of", "iter(state)"):
+        ("product states are non-empty: the start state has one entry per merged DFA (an empty list is refused before _merge), successors are skipped when empty",
+         [("CaseNode.convert", "if not mergeable_ds:\n    raise IllegalASTStateError($$a, self)"),
+          ("CaseNode._merge", "if not next_state:\n    actual_else |= symbol\n    continue"),
+          ("CaseNode._merge", "start_state = frozenset(((dfa, dfa.starting_state) for dfa in ds))")]),
+    ("ParseCtx.parse", "self._parse_tree.find_data('parser_decl')"):
+        ("the grammar's start rule requires a parser declaration", "GRAMMAR_PARSER_DECL"),
+}
+
+
+def _next_calls(ctx, rep, tier):
+    from ..pat import shape
+    model = ctx.model
+    rep.rule("C18.k", "next(it) without a default is guarded (except StopIteration / size test on the iterated collection) or its iterator is non-empty by a construct re-checked here")
+    n = 0
+    for q, f in model.functions.items():
+        for c in calls_in(f, nested=False):
+            if not (isinstance(c.func, ast.Name) and c.func.id == "next" and len(c.args) == 1 and not c.keywords):
+                continue
+            n += 1
+            what = f"next({ast.unparse(c.args[0])[:60]})"
+            # (1) try / except StopIteration around the call
+            node, guarded = c, None
+            while node in model.parents and node is not f:
+                child, node = node, model.parents[node]
+                if isinstance(node, ast.Try) and any(child is s for s in node.body) and \
+                        any(h.type is None or re.search(r"\b(StopIteration|Exception|BaseException)\b", ast.unparse(h.type)) for h in node.handlers):
+                    guarded = "inside try/except StopIteration"
+                    break
+            # (2) `if len(X) == 1:` / `if X:` around next(iter(X))
+            a = c.args[0]
+            if guarded is None and isinstance(a, ast.Call) and isinstance(a.func, ast.Name) and a.func.id == "iter" and len(a.args) == 1:
+                coll = ast.unparse(a.args[0])
+                for test, pol in __import__("nmfulint.guards", fromlist=["x"]).enclosing_conditions(model, c, f):
+                    if pol and (test == coll or re.fullmatch(r"len\(%s\) (== [1-9]\d*|> 0|>= 1|!= 0)" % re.escape(coll), test)):
+                        guarded = f"under `if {test}`"
+                if guarded is None:
+                    node = c
+                    while node in model.parents and node is not f and guarded is None:
+                        child, node = node, model.parents[node]
+                        for fld in ("body", "orelse"):
+                            lst = getattr(node, fld, None)
+                            if isinstance(lst, list) and child in lst:
+                                for st in lst[:lst.index(child)]:
+                                    if isinstance(st, ast.If) and isinstance(st.body[-1], (ast.Continue, ast.Return, ast.Raise, ast.Break)) and not st.orelse:
+                                        disj = st.test.values if isinstance(st.test, ast.BoolOp) and isinstance(st.test.op, ast.Or) else [st.test]
+                                        if any(ast.unparse(d) == f"not {coll}" for d in disj):
+                                            guarded = f"after `if {ast.unparse(st.test)}: {type(st.body[-1]).__name__.lower()}`"
+            if guarded:
+                rep.ok("C18.k", q, f"{what}: {guarded}")
+                continue
+            key = (q, shape(model, f, a))
+            ent = NEXT_TRIAGE.get(key)
+            if ent is None:
+                rep.bad("C18.k", q, what, f"`{ast.unparse(c)[:80]}` has no default and no guard: an empty iterator raises StopIteration, an internal exception "
+                        "(e.g. `case { else -> {...} }` had nothing to merge)", line=c.lineno)
+                continue
+            reason, req = ent
+            if req == "ADD_BACK":
+                args = [ast.unparse(x.args[0]) for x in ast.walk(model.func("RegexNFA.minimize_dfa")) if isinstance(x, ast.Call) and isinstance(x.func, ast.Name) and x.func.id == "add_back" and x.args]
+                okr = len(args) >= 2 and all(s.startswith("partition_containing(") or model.has("RegexNFA.minimize_dfa.add_back", f"{s} = partition_containing(target)") for s in args)
+            elif req == "GRAMMAR_PARSER_DECL":
+                g = ctx.grammar
+                okr = g.min_count("start", "parser_decl") >= 1
+            else:
+                okr = all(model.has(fq, p) for fq, p in req)
+            rep.check(okr, "C18.k", q, f"{what}: {reason[:90]}", f"the construct that made `{what}` safe is gone ({reason}): StopIteration on an empty iterator", line=c.lineno)
+    if n < 8:
+        raise AnalysisError(f"C18.k: only {n} next() call sites found (floor 8)")
+
+
+_run2 = run
+
+
+def run(ctx, rep, tier):
+    _run2(ctx, rep, tier)
+    _next_calls(ctx, rep, tier)
